@@ -28,9 +28,13 @@
        dtot dcountp (a counter that does not decode counts 0 there - never looked at, since the walk has failed).
        Proofs/LayoutPartialP.v: walkvp = walk_prepass, for every schema, start and anchors (walkvp_prepass).
 
-   Negative counts: Python's int() of a counter with a negative sign is negative, the code accepts it and builds an
-   ArrayLocation of negative size (fields after the table move BACKWARDS); res nat cannot hold that and no theorem is
-   claimed for it - the concrete decoders below clamp to 0 as Model/ZonedCounter.v does, the generators never produce it.
+   Negative counts: Python's int() of a counter with a negative sign is negative.  Since the fix of finding
+   K-negative-counter LocationMaker.walk refuses such a count ( if maxItems < 0: raise ValueError , read from the source into
+   Gen/LayoutParams.odo_negative_refused): the exception leaves the walk exactly as a decoder exception does, so the concrete
+   decoders below return Err ValueError for a negative value when that guard is there (count_of_int).  Without the guard the
+   code builds an ArrayLocation of negative size (fields after the table move BACKWARDS); res nat cannot hold that, the
+   decoders then clamp to 0 as Model/ZonedCounter.v does and no theorem is claimed (the walk over Python's integers,
+   Model/Counters.v and Props/C06e.v, is the model of that case).  The generators of C10 never produce a negative counter.
    A count above the declared maximum (OCCURS 1 TO 5 with a counter of 7) is accepted by the code as it is by the model.
 
    No proofs in this file. *)
@@ -370,11 +374,13 @@ Definition nav_ofp {B} (dcountp : list B -> res nat) (r : list B) (s : js) : res
 (* ------------------------------------------------------------------ the decoders the code uses, for records of bytes
    int(estruct.unpack(<picture of the counter>, bytes)) with the exception kept.  A counter is an unsigned item without
    implied point whose width is the field's: DISPLAY 9(k) in k bytes, COMP-3 9(2k-1) in k bytes (usage numbers of
-   Gen/EstructParams.v: 11 = DISPLAY, 8 = COMP-3).  A negative value (zone or sign nibble D / B) is outside the model. *)
+   Gen/EstructParams.v: 11 = DISPLAY, 8 = COMP-3).  A negative value (zone or sign nibble D / B): see the head of this file. *)
+Definition count_of_int (z : Z) : res nat :=
+  if odo_negative_refused && (z <? 0)%Z then Err ValueError else Ok (Z.to_nat z).
 Definition count_of_pyval (v : res pyval) : res nat :=
   match v with
-  | Ok (VDec d) => Ok (Z.to_nat (int_of_decimal d))
-  | Ok (VInt z) => Ok (Z.to_nat z)
+  | Ok (VDec d) => count_of_int (int_of_decimal d)
+  | Ok (VInt z) => count_of_int z
   | Ok (VStr _) => Err ValueError                (* int() of a string that holds no integer literal *)
   | Err e => Err e
   end.
